@@ -201,6 +201,9 @@ class MinFlowDecompCycles(walkmodel.AbstractWalkModelDiGraph):
             This overloads the `solve()` method from `AbstractWalkModelDiGraph` class.
         """
         self.solve_time_start = time.perf_counter()
+        # A (re-)solve starts from scratch: whatever an earlier solve() of this object found is no longer the answer of this run
+        self._is_solved = False
+        self._solution = None
         utils.logger.info(f"{__name__}: starting to solve the MinFlowDecompCycles model for graph id = {utils.fpid(self.G)}")
 
         if self.optimization_options.get("optimize_with_guessed_weights", MinFlowDecompCycles.optimize_with_given_weights):            
